@@ -20,6 +20,7 @@ type tagStats struct {
 	next     int64
 	rpcs     map[int64][]string
 	untagged int
+	expect   string // FullMethodName every TagRPC must carry ("" = not checked)
 	conn     []string
 }
 
@@ -30,9 +31,12 @@ type tsKey struct {
 
 func newTagStats(id int) *tagStats { return &tagStats{id: id, rpcs: map[int64][]string{}} }
 
-func (s *tagStats) TagRPC(ctx context.Context, _ *stats.RPCTagInfo) context.Context {
+func (s *tagStats) TagRPC(ctx context.Context, info *stats.RPCTagInfo) context.Context {
 	s.mu.Lock()
 	defer s.mu.Unlock()
+	if s.expect != "" && info.FullMethodName != s.expect {
+		s.untagged++ // the RPC was announced under another method's name
+	}
 	s.next++
 	s.rpcs[s.next] = []string{"TagRPC"}
 	return context.WithValue(ctx, tsKey{s.id, false}, s.next)
@@ -149,7 +153,7 @@ func emitStats(em *Emitter, idx *int, kind string, desc map[string]any, tags []s
 		}
 		em.Emit(Rec{Idx: *idx, Kind: kind, Desc: d, Obs: map[string]any{"events": evs, "stray": stray},
 			Tags: append(append([]string(nil), tags...), fmt.Sprintf("handlers=%d", len(hs))),
-			Coq: fmt.Sprintf("CStats %s %d %d %s %s %s %d", exit, len(hs), i, coqBool(finished), coqBool(succ), coqList(evs), stray)})
+			Coq:  fmt.Sprintf("CStats %s %d %d %s %s %s %d", exit, len(hs), i, coqBool(finished), coqBool(succ), coqList(evs), stray)})
 		*idx++
 	}
 }
